@@ -1,1 +1,2 @@
 pub mod core;
+pub mod wal;
